@@ -187,8 +187,21 @@ pub fn run_batch_known<P: Property>(
     nworkers: usize,
     known: &[String],
 ) -> BatchResult<P::Case> {
+    run_batch_range(p, seed, tier, 0, nruns, nworkers, known)
+}
+
+/// Runs with index in [from, nruns).
+pub fn run_batch_range<P: Property>(
+    p: &P,
+    seed: u64,
+    tier: Tier,
+    from: u64,
+    nruns: u64,
+    nworkers: usize,
+    known: &[String],
+) -> BatchResult<P::Case> {
     let t0 = Instant::now();
-    let next = AtomicU64::new(0);
+    let next = AtomicU64::new(from);
     let total = Mutex::new((Agg::default(), Vec::<Found<P::Case>>::new(), 0u64));
     let stop_after = AtomicU64::new(u64::MAX);
     std::thread::scope(|sc| {
@@ -211,7 +224,7 @@ pub fn run_batch_known<P: Property>(
                     let failure = p.execute(&case, &mut ctx);
                     let log = ctx.log;
                     agg.digest = agg.digest.wrapping_add(crate::rng::fnv(&format!("{i}:{log}")));
-                    if i < 3 {
+                    if i < from + 3 || (i >= 3 && i < 6) {
                         agg.samples.insert(i, p.sample(&case));
                     }
                     if let Some(failure) = failure {
